@@ -61,6 +61,17 @@ func CallGraphKey(frame, class, method string) string {
 	return frame + "\x00" + class + "\x00" + method
 }
 
+// SignatureKey is the key of TSignatures / TSignatureDocument for a method: CallGraphKey plus a
+// marker for class methods, so that no two methods share an entry.
+func SignatureKey(frame, class, method string, isStatic bool) string {
+	key := CallGraphKey(frame, class, method)
+	if isStatic {
+		key += "\x00static"
+	}
+
+	return key
+}
+
 // compareSigTie orders signatures that agree on method, class and frame (a class
 // method and an instance method of the same name, overloads), so that the sorted
 // result never depends on map iteration order.
